@@ -12,6 +12,8 @@ ALPH = {
     # richer: off-grid prices, volume 3, ttl 2
     "rich": alphabet(prices=(99, 99.5, 100, 100.25, 101), vols=(1, 2, 3), ttls=(None, 1, 2), mvols=(1, 2, 3)),
     "half": alphabet(prices=(99.5, 99.75, 100, 100.5), vols=(1, 2), ttls=(None, 1)),
+    # prices at and below one tick: 0.4 is accepted at 0.0 for a buy and at 1.0 for a sell
+    "low": alphabet(prices=(0.4, 1, 2), vols=(1, 2), ttls=(None,), mttls=(None,), dead=(), cancels=2),
 }
 SEEDS_Q = ["deep", "ladder_buy", "ladder_sell", "partial", "crossed_off", "crossed_tie", "mo_one", "mo_both",
            "mo_both_eq", "expiring", "multi_fill", "chunk4", "halftick"]
@@ -32,6 +34,8 @@ def plan(tier, d0=None, dseed=None):
                 p.append((s, mode, dseed, "half" if s == "halftick" else "quick"))
         for s in KEY_SEEDS:
             p.append((s, "free", dseed + 1, "quick"))
+        for mode in ("cont", "free"):
+            p.append(("empty", mode, d0, "low"))
     else:
         d0 = d0 or 5
         dseed = dseed or 3
@@ -39,6 +43,7 @@ def plan(tier, d0=None, dseed=None):
             p.append(("empty", mode, d0, "quick"))
             p.append(("empty", mode, d0 + 1, "reduced"))
             p.append(("empty", mode, d0 - 1, "rich"))
+            p.append(("empty", mode, d0, "low"))
         for s in SEEDS_Q:
             for mode in ("cont", "free"):
                 p.append((s, mode, dseed + (1 if s in KEY_SEEDS else 0), "half" if s == "halftick" else "quick"))
@@ -48,7 +53,7 @@ def plan(tier, d0=None, dseed=None):
 
 
 def run_generic(pid, tier, seed, mon_factory, required_witness, rule, assumptions=(), d0=None, dseed=None,
-                extra_alph=None, extra_plan=()):
+                extra_alph=None, extra_plan=(), heap=True):
     res = common.Result(pid, tier, seed)
     alph = dict(ALPH)
     if extra_alph:
@@ -63,6 +68,9 @@ def run_generic(pid, tier, seed, mon_factory, required_witness, rule, assumption
     cov["distinct_nontrivial"] = cov["states"]
     cov["bounds"] = dict(plan=[list(x) for x in pl], alphabets={k: len(v) for k, v in alph.items()},
                          seed_books=sorted(set(x[0] for x in pl)))
+    if heap:
+        from .. import heap_stress
+        heap_stress.run(res, mon_factory, tier, seed)
     res.assumptions = list(assumptions) + [
         "operations are drawn from the stated finite alphabets; histories longer than the stated depth are not explored",
         "the market is driven through the same private interface the runner uses (_add_order, _cancel_order, _execution, _update_time, _is_running)",
@@ -71,6 +79,14 @@ def run_generic(pid, tier, seed, mon_factory, required_witness, rule, assumption
 
 
 def replay_generic(payload, mon_factory):
+    if payload.get("engine") == "F" and payload.get("grid") == "deep_one_sided_books":
+        from .. import heap_stress
+        v = heap_stress.replay(payload, mon_factory)
+        if v is None:
+            print("replay: no violation on this tree")
+            return 0
+        print("VIOLATION property=%s replay=(this file)" % payload["property_id"])
+        return 1
     v = replay_history(mon_factory, payload["mode"], [tuple(o) for o in payload["history"]], payload["seed_book"])
     if v is None:
         print("replay: no violation on this tree")
